@@ -465,6 +465,15 @@ func c10Gen(r *Rng, tier string, idx int) (string, func() string) {
 		return "src udp opens 1 sched udpFail", func() string { return lcUDPFail(idx, false) }
 	case idx == 1:
 		return "src udp opens 1 sched udpBusy", func() string { return lcUDPFail(idx, true) }
+	case idx == 40 || (tier == "thorough" && idx%61 == 17):
+		variant := r.Intn(5)
+		bias := b2i(r.Bool())
+		k := r.Range(1, 2)
+		return fmt.Sprintf("src roach opens 0 sched roachSrc variant %d bias %d k %d", variant, bias, k),
+			func() string { return lcRoachSrc(idx, variant, bias == 1, k) }
+	case idx == 80 || (tier == "thorough" && idx%167 == 19):
+		k := r.Range(1, 2)
+		return fmt.Sprintf("src abaco opens 1 sched abacoRPC k %d", k), func() string { return lcAbacoRPC(idx, k) }
 	case idx == 20 || idx == 110 || (tier == "thorough" && idx%131 == 13):
 		k := 1 + idx%3
 		hold := b2i(idx%2 == 0)
